@@ -146,6 +146,8 @@ def _eval_with_locals(f, idx, pins, depth=0):
 def rule_r3(ck, prog, cls='trace::TraceState', rule='C14.R3', api='KeyValueProperties'):
     rule_r3_copy(ck, prog, cls, rule, api)
     rule_r3_update(ck, prog, cls, rule, api)
+    if cls == 'trace::TraceState':
+        rule_r3_alloc(ck, prog, cls, rule, api)
 
 
 def rule_r3_copy(ck, prog, cls='trace::TraceState', rule='C14.R3', api='KeyValueProperties'):
@@ -180,6 +182,72 @@ def rule_r3_copy(ck, prog, cls='trace::TraceState', rule='C14.R3', api='KeyValue
             why = 'the copy callback adds every existing entry unconditionally'
         ck.verdict(ok, rule, f, '%s:copy-excludes-key' % name, None, 'existing entries are copied only when their key differs from the given key' if ok else
                    '%s: %s: the old entry of the key survives next to the new one (duplicate member)' % (name, why) if name == 'Set' else '%s: %s: the key is not removed' % (name, why))
+
+
+def rule_r3_alloc(ck, prog, cls='trace::TraceState', rule='C14.R3', api='KeyValueProperties'):
+    """Delete: the copy is allocated one member smaller only when the key is known to be present (AddEntry silently drops what
+    does not fit, so a too small allocation loses the last member)"""
+    f = prog.function(cls + '::Delete')
+    g = Graph(prog, f, inline=None, sync_lambdas=False)
+    rd = reaching_defs(g)
+    news = [p for p in g.points if p.n is not None and p.n['k'] == 'construct' and qmatch(p.n.get('c', ''), cls + '::TraceState') and p.n.get('args')]
+    if not news:
+        raise AnalysisBroken('TraceState::Delete: allocation of the copy not found')
+    np_ = news[0]
+    lookups = [n for n in f.nodes if n['k'] == 'call' and strip_targs(n.get('c', '')).endswith(api + '::GetValue')]
+
+    def present_edge(a, b, lab):
+        if not lab or not isinstance(lab[0], int):
+            return False
+        core, pol = norm_cond(lab[1], lab[0])
+        for (sf, sn, sc) in origins(g, rd, lab[1], core, a.ctx):
+            if any(sn is l for l in lookups):
+                return (lab[2] if pol else not lab[2]) is True
+        return False
+
+    def size_sym(lin):
+        return [k for k in lin if k.endswith('Size()')] if lin else []
+    arg = strip_casts(f, np_.n['args'][0])
+    verdict = None   # (ok, why, node)
+    if arg['k'] == 'ref' and arg.get('sk') == 'local':
+        defs = [g.points[d] for (v, d) in rd.get(np_.id, ()) if v == arg['id']]
+        for dp in defs:
+            for (v, strong, vx) in defs_in_node(f, dp.n):
+                if v != arg['id'] or vx is None:
+                    continue
+                vn = strip_casts(f, vx)
+                if dp.n['k'] == 'binop' and dp.n['op'] in ('-=', '+=') or (dp.n['k'] == 'unop' and dp.n['op'] in ('--', '++')):
+                    amt = 1 if dp.n['k'] == 'unop' else strip_casts(f, dp.n['rhs']).get('v')
+                    if dp.n['op'] in ('+=', '++'):
+                        continue
+                    if amt == 1 and g.must_pass_edge(dp, present_edge):
+                        continue
+                    verdict = (False, 'the size of the copy is reduced without the key being known to be present', dp.n)
+                    continue
+                lin = linear(g, rd, f, vx, dp.ctx)
+                ss = size_sym(lin)
+                if lin is not None and len(ss) == 1 and lin.get(ss[0]) == 1 and set(lin) <= {ss[0], '1'}:
+                    dec = -lin.get('1', 0)
+                    if dec <= 0:
+                        continue
+                    if dec == 1 and g.must_pass_edge(dp, present_edge):
+                        continue
+                    verdict = (False, 'the copy is allocated %d member(s) smaller than the list without the key being known to be present' % dec, dp.n)
+                elif vn['k'] == 'cond':
+                    srcs = origins(g, rd, f, norm_cond(f, vn['cnd'])[0], dp.ctx)
+                    if any(any(sn is l for l in lookups) for (sf, sn, sc) in srcs):
+                        continue
+                    verdict = (False, 'the size of the copy is chosen by a condition that does not say whether the key is present', dp.n)
+                else:
+                    verdict = verdict or (None, 'size expression of the copy not recognised', dp.n)
+    else:
+        verdict = (None, 'allocation argument is not a local', np_.n)
+    if verdict is None:
+        ck.holds(rule, f, 'Delete:allocation-fits-the-copy', np_.n, 'allocated Size(), or Size()-1 behind the key-present edge')
+    elif verdict[0] is False:
+        ck.violation(rule, f, 'Delete:allocation-fits-the-copy', verdict[2], verdict[1] + ': deleting a key that is not a member drops the last member (AddEntry ignores what does not fit)')
+    else:
+        ck.inconclusive(rule, f, 'Delete:allocation-fits-the-copy', verdict[2], verdict[1])
 
 
 def rule_r3_update(ck, prog, cls='trace::TraceState', rule='C14.R3', api='KeyValueProperties'):
@@ -296,13 +364,73 @@ def rule_r6(ck, prog, rule='C14.R6'):
         ck.inconclusive(rule, f, 'trim-class', None, 'expected two trimming loops')
 
 
+LC_DIGIT = frozenset(range(ord('a'), ord('z') + 1)) | frozenset(range(ord('0'), ord('9') + 1))
+KEY_REST = LC_DIGIT | frozenset(map(ord, '_-*/'))
+VAL_ANY = frozenset(range(0x20, 0x7f)) - frozenset(map(ord, ',='))
+VAL_LAST = VAL_ANY - frozenset([0x20])
+KEY_LANG = frozenset({((LC_DIGIT, 1, 1), (KEY_REST, 0, 255)),
+                      ((LC_DIGIT, 1, 1), (KEY_REST, 0, 240), (frozenset([ord('@')]), 1, 1), (LC_DIGIT, 1, 1), (KEY_REST, 0, 13))})
+VAL_LANG = frozenset({((VAL_ANY, 0, 255), (VAL_LAST, 1, 1))})
+
+
+def rule_r7(ck, prog, rule='C14.R7'):
+    """the regular expressions of the configured validators denote the W3C key / value grammar (parsed normal form over
+    exhaustive byte sets), and the validator returns true exactly when one of them matches the whole string"""
+    from ..regexnf import language, describe as rdesc
+    from ..symb import returns_under_pins, T, F
+    done = 0
+    for name, want, what in (('IsValidKeyRegEx', KEY_LANG, 'key = (lcalpha|digit) 0*255(keychar) | tenant(1..241) "@" system(1..14)'),
+                             ('IsValidValueRegEx', VAL_LANG, 'value = 0*255(chr) nblk-chr, chr = %x20-7E except "," and "="')):
+        fs = prog.functions('trace::TraceState::' + name)
+        if not fs:
+            continue
+        done += 1
+        f = fs[0]
+        pats = [n['s'] for n in f.nodes if n['k'] == 'str']
+        rms = [n for n in f.nodes if n['k'] == 'call' and strip_targs(n.get('c', '')) in ('std::regex_match', 'std::regex_search')]
+        search = [n for n in rms if strip_targs(n['c']) == 'std::regex_search']
+        lang = frozenset()
+        bad = None
+        for pt in pats:
+            l = language(pt)
+            if l is None:
+                bad = pt
+                break
+            lang |= l
+        site = '%s-language' % ('key' if 'Key' in name else 'value')
+        if bad is not None:
+            ck.inconclusive(rule, f, site, None, 'pattern %r is outside the supported regex fragment' % bad)
+        elif search:
+            ck.violation(rule, f, site, search[0], 'the validator uses regex_search: any string containing a valid %s is accepted' % site.split('-')[0])
+        else:
+            ck.verdict(lang == want, rule, f, site, rms[0] if rms else None, what if lang == want else
+                       'the %s pattern(s) accept %s; the W3C grammar is %s' % (site.split('-')[0], rdesc(lang, describe), rdesc(want, describe)))
+        # decision: true iff some match
+        g = Graph(prog, f, inline=None, sync_lambdas=False)
+        ok = bool(rms) and len(rms) == len(pats)
+        if ok:
+            allf = returns_under_pins(g, {n['i']: F for n in rms})
+            ok = allf == {F}
+            for n in rms:
+                pins = {m['i']: F for m in rms}
+                pins[n['i']] = T
+                if returns_under_pins(g, pins) != {T}:
+                    ok = False
+        ck.verdict(ok, rule, f, site.replace('language', 'decision'), rms[0] if rms else None,
+                   'returns true exactly when one of its %d pattern(s) matches the whole string' % len(rms) if ok else
+                   'the validator does not return true exactly when one of its patterns matches')
+    return done
+
+
 def run(ck, prog):
     ck.doc('C14.R1', 'no member of TraceState modifies the object it is called on', 5)
     ck.doc('C14.R2', 'validity gates dominate construction; invalid => default/empty; at most 32 members when parsing', 9)
-    ck.doc('C14.R3', 'copy excludes the updated/deleted key; an update of an existing key is never refused', 3)
+    ck.doc('C14.R3', 'copy excludes the updated/deleted key; an update of an existing key is never refused; Delete allocates enough', 4)
     ck.doc('C14.R4', 'AddEntry bounded by the allocation; new key only while size < 32', 2)
     ck.doc('C14.R5', 'key lookup compares whole keys', 1)
     ck.doc('C14.R6', 'Trim removes exactly the whitespace class on both edges', 2)
+    ck.doc('C14.R7', 'the validators\' regular expressions denote the W3C key/value grammar; true iff a whole-string match', 0)
+    ck.doc('C09.R7', '(shared rule) no function-local static of the parse/validate functions is modified after initialisation', 1)
     with ck.canary('C14.R1'):
         rule_r1(ck, prog, cls='canary::c14::BadState', field='kv_')
     rule_r1(ck, prog)
@@ -311,4 +439,8 @@ def run(ck, prog):
     rule_r4(ck, prog)
     rule_r5(ck, prog)
     rule_r6(ck, prog)
+    if not rule_r7(ck, prog):
+        ck.note('C14.R7 not applicable in this configuration: the regex validators are not compiled (OPENTELEMETRY_HAVE_WORKING_REGEX=0)')
+    from . import c09
+    c09.rule_r7(ck, prog)
     return {}
